@@ -318,7 +318,7 @@ def k_isinstance(x, t):
         return str in ts
     if isinstance(x, SInt):
         return int in ts
-    if type(x).__name__ in ("SReal", "SFloat"):
+    if type(x).__name__ in ("SReal", "SFloat", "SRat", "DecFloat"):
         return float in ts
     if isinstance(x, SBool):
         return bool in ts or int in ts
@@ -354,7 +354,7 @@ def k_int(x=0, base=None):
         if base is not None:
             raise TypeError("int() can't convert non-string with explicit base")
         return x
-    if type(x).__name__ in ("SReal", "SFloat"):
+    if type(x).__name__ in ("SReal", "SFloat", "SRat", "DecFloat"):
         return x.__int__()
     if isinstance(x, Numeral):
         b = 10 if base is None else base
